@@ -930,6 +930,56 @@ def differential(rep, programs, impl, model, family, cls):
                 {"family": family, "class": cls, "program": p, "impl": a, "model": b})
 
 
+def nary_stream(rep, rng, count):
+    """Oracle-only stream on the real objects: the n-ary entry points `f.then(g, h, ...)`,
+    `f.tensor(g, h, ...)`, `Tensor.id(dom).then(*fs)`, `Tensor.id(Dim(1)).tensor(*fs)` and their
+    operator forms give the left-to-right composite / Kronecker product of ALL the tensors, the
+    receiver included; an ill-typed chain is refused with AxiomError wherever the mismatch sits."""
+    from discopy.tensor import Dim, Tensor
+    from discopy.cat import AxiomError
+    bad = 0
+
+    def rand_tensor(dom, cod):
+        size = int(numpy.prod(dom or [1])) * int(numpy.prod(cod or [1]))
+        return Tensor(Dim(*dom), Dim(*cod), [rng.randint(-3, 3) for _ in range(size)])
+
+    def dims():
+        return [rng.choice([2, 3]) for _ in range(rng.randint(0, 2))]
+    for k in range(count):
+        a, b, c, d = dims(), dims(), dims(), dims()
+        f, g, h = rand_tensor(a, b), rand_tensor(b, c), rand_tensor(c, d)
+        rep.count("stream:n-ary")
+        what = None
+        try:
+            want = (f >> g) >> h
+            if f.then(g, h) != want or f.then(g).then(h) != want or Tensor.id(Dim(*a)).then(f, g, h) != want:
+                what = "f.then(g, h) is not (f >> g) >> h"
+            kron = (f @ g) @ h
+            if what is None and (f.tensor(g, h) != kron or Tensor.id(Dim(1)).tensor(f, g, h) != kron):
+                what = "f.tensor(g, h) is not (f @ g) @ h"
+            if what is None and f.then() != f:
+                what = "f.then() is not f"
+            wrong = rand_tensor([5], c)
+            for name, thunk in (("f.then(wrong, h)", lambda: f.then(wrong, h)), ("f.then(g, wrong)", lambda: f.then(g, wrong)),
+                                ("wrong.then(g, h)", lambda: rand_tensor(a, [5]).then(g, h))):
+                if what is not None:
+                    break
+                try:
+                    r = thunk()
+                    what = "%s is accepted although the types do not match (returns %r -> %r)" % (name, r.dom, r.cod)
+                except AxiomError:
+                    pass
+        except Exception as exc:   # noqa
+            what = "n-ary then / tensor raised %s: %s" % (type(exc).__name__, exc)
+        if what:
+            bad += 1
+            rep.count("oracle:n-ary:FAIL")
+            if bad <= 3:
+                rep.violation(what, {"f": repr(f), "g": repr(g), "h": repr(h)})
+        else:
+            rep.count("oracle:n-ary:pass")
+
+
 def exotic_array_stream(rep, rng, count):
     """Oracle-only stream on the real objects, outside the Gaussian-integer model: arrays that are
     not plain C-ordered integer arrays - object-dtype entries (Python complex, Fractions, sympy
@@ -1177,6 +1227,7 @@ def run(tier, seed):
     if ti.UNKNOWN_CLASSES:
         rep.extra["unknown_exception_classes"] = list(ti.UNKNOWN_CLASSES)
     exotic_array_stream(rep, random.Random(seed + 88), 120 if tier == "quick" else 2000)
+    nary_stream(rep, random.Random(seed + 89), 80 if tier == "quick" else 1500)
     settle(rep, ti, proof_ok, "C08")
     trusted = [t for t in base.TRUSTED_CORE]
     trusted[1] = trusted[1].replace("coq/Core/*.v", "coq/Tensor/NumpyModel.v, coq/Tensor/Tensor.v")
